@@ -222,8 +222,8 @@ impl FloatEncoding for f32 {
             } else {
                 Inexact(f32::NEG_INFINITY, Sign::Negative)
             };
-        } else if top_bit < -125 - 23 {
-            // underflow
+        } else if top_bit < -125 - 23 - 1 {
+            // underflow (values in [2^-150, 2^-149) can still be rounded up to the smallest subnormal)
             return if sign == 0 {
                 Inexact(0f32, Sign::Negative)
             } else {
@@ -243,9 +243,14 @@ impl FloatEncoding for f32 {
                 round_bits = 0; // not rounding is required
                 mantissa <<= shift as u32;
             } else {
-                let shifted = mantissa << (30 + shift) as u32;
-                round_bits = (shifted >> 28 & 0b110) as u8 | ((shifted & 0x1fffffff) != 0) as u8;
-                mantissa >>= (-shift) as u32;
+                // up to 32 bits are shifted out, so the calculation is done in a wider type
+                let drop = (-shift) as u32;
+                let wide = mantissa as u64;
+                let kept = wide >> drop;
+                let round_bit = (wide >> (drop - 1)) & 1;
+                let sticky = wide & ((1u64 << (drop - 1)) - 1) != 0;
+                round_bits = ((kept & 1) << 2) as u8 | (round_bit << 1) as u8 | sticky as u8;
+                mantissa = kept as u32;
             }
 
             // then compose the bit representation of f32
@@ -343,8 +348,8 @@ impl FloatEncoding for f64 {
             } else {
                 Inexact(f64::NEG_INFINITY, Sign::Negative)
             };
-        } else if top_bit < -1022 - 52 {
-            // underflow
+        } else if top_bit < -1022 - 52 - 1 {
+            // underflow (values in [2^-1075, 2^-1074) can still be rounded up to the smallest subnormal)
             return if sign == 0 {
                 Inexact(0f64, Sign::Negative)
             } else {
@@ -364,10 +369,14 @@ impl FloatEncoding for f64 {
                 round_bits = 0; // not rounding is required
                 mantissa <<= shift as u32;
             } else {
-                let shifted = mantissa << (62 + shift) as u64;
-                round_bits =
-                    (shifted >> 60 & 0b110) as u8 | ((shifted & 0x1fffffffffffffff) != 0) as u8;
-                mantissa >>= (-shift) as u32;
+                // up to 64 bits are shifted out, so the calculation is done in a wider type
+                let drop = (-shift) as u32;
+                let wide = mantissa as u128;
+                let kept = wide >> drop;
+                let round_bit = (wide >> (drop - 1)) & 1;
+                let sticky = wide & ((1u128 << (drop - 1)) - 1) != 0;
+                round_bits = ((kept & 1) << 2) as u8 | (round_bit << 1) as u8 | sticky as u8;
+                mantissa = kept as u64;
             }
 
             // then compose the bit representation of f64
